@@ -68,6 +68,8 @@ def generate(rng, tier, rep):
                 T['tearDown'] = ['error', rand_msg(rng)]
             elif r < 0.85:
                 T['setUp'] = [rng.choice(['fail', 'error']), rand_msg(rng)]
+            elif r < 0.88:
+                T['body'] = rng.choice(['error_odd:badstr', 'error_odd:badrepr'])     # an exception that cannot render itself
             elif r < 0.92:
                 T['body'] = 'skip'
             else:
@@ -180,7 +182,8 @@ def to_coq(c, o):
             if ph in T:
                 out = outcome(T[ph])
                 T2[ph] = out
-                dflt = 'scripted failure \x01<&>' if out == 'fail' else "'scripted error'" if out == 'error' else ''
+                dflt = ('scripted failure \x01<&>' if out == 'fail' else "'scripted error'" if out == 'error'
+                        else '<exception str() failed>' if out in ('error_odd:badstr', 'error_odd:badrepr') else '')
                 msgs.append((code[0], code[1], msg_of(T[ph], dflt)))
         if 'subs' in T:
             T2['subs'] = [outcome(x) for x in T['subs']]
